@@ -147,6 +147,16 @@ macro_rules! dim_checks {
                 ensure_eq!(arr(list.iter().cloned().sum::<$V<S>>()), want3, "sum-values", "Sum over vectors");
                 ensure_eq!(list[1..2].iter().sum::<$V<S>>(), cv, "sum-single", "Sum of one vector");
                 ensure_eq!(list[..0].iter().sum::<$V<S>>(), $V::<S>::zero(), "sum-empty", "empty Sum is zero()");
+                if d.chance(1, 12) {
+                    // a long list (beyond any plausible block size): n copies of u interleaved with m copies of v
+                    let len = d.int(100, 300) as usize;
+                    let long: Vec<$V<S>> = (0..len).map(|j| if j % 3 == 1 { cv } else { cu }).collect();
+                    let nv = (0..len).filter(|j| j % 3 == 1).count() as i64;
+                    let nu = len as i64 - nv;
+                    let want: Vec<S> = (0..$n).map(|i| S::i(nu) * u[i] + S::i(nv) * v[i]).collect();
+                    ensure_eq!(arr(long.iter().sum::<$V<S>>()), want, "sum-refs-long", "Sum over a long list of &vectors");
+                    ensure_eq!(arr(long.iter().cloned().sum::<$V<S>>()), want, "sum-values-long", "Sum over a long list of vectors");
+                }
                 // ElementWise with a vector right-hand side
                 ensure_eq!(arr(cu.add_element_wise(cv)), cmp(&u, &v, |x, y| x + y), "add_element_wise", "add_element_wise(v)");
                 ensure_eq!(arr(cu.sub_element_wise(cv)), cmp(&u, &v, |x, y| x - y), "sub_element_wise", "sub_element_wise(v)");
